@@ -27,7 +27,7 @@ from common import Model
 logging.disable(logging.CRITICAL)
 
 LEAN_TARGETS = ["NfcVerif.Props.C02", "drv_t12", "drv_c02"]
-PARTS = ["t34"] if os.path.exists(os.path.join(os.path.dirname(os.path.abspath(__file__)), "c02_t34.py")) else []
+PARTS = ["t34", "vendor"]
 
 THEOREMS = [
     "NfcVerif.C02.t12_cut_safe",
